@@ -18,6 +18,7 @@ import RosuModel.Model.FiniteWire
 import RosuModel.Model.PerfCalcWire
 import RosuModel.Model.SliderEventsWire
 import RosuModel.Model.ManiaPatternWire
+import RosuModel.Model.TaikoPreWire
 
 open Rosu
 
@@ -80,6 +81,7 @@ def handle (line : String) : String :=
     ManiaPattern.Wire.handleMPP total rng x sample ct cd prev span start end_ seg nodes
   | ["MPE", total, rng, sample, prev, hold, short] => ManiaPattern.Wire.handleMPE total rng sample prev hold short
   | ["MPT", total, seed, cd, objs] => ManiaPattern.Wire.handleMPT total seed cd objs
+  | ["TKPRE", clock, take, objs] => TaikoPre.handleTKPRE clock take objs
   | _ => "bad-op"
 
 partial def loop (h : IO.FS.Stream) (out : IO.FS.Stream) : IO Unit := do
